@@ -130,11 +130,12 @@ class InducingPointKernel(Kernel):
             kernel_mat = self._cached_kernel_mat
 
         cp = self.__class__(
-            base_kernel=copy.deepcopy(self.base_kernel),
-            inducing_points=copy.deepcopy(self.inducing_points),
-            likelihood=self.likelihood,
+            base_kernel=copy.deepcopy(self.base_kernel, memo),
+            inducing_points=copy.deepcopy(self.inducing_points, memo),
+            likelihood=copy.deepcopy(self.likelihood, memo),
             active_dims=self.active_dims,
         )
+        cp.training = self.training
 
         if replace_inv_root:
             cp._cached_kernel_inv_root = kernel_inv_root
